@@ -395,6 +395,14 @@ int main(void)
 				same = 0;
 		(void)d1; (void)d2;
 
+#ifdef PROP_C05
+		/* what a checker will parse is what was serialised here: both trees dumped, with exactly
+		 * the canonical flag word (asserted in vf_dump_hook), alg = the algorithm used */
+		PROP(dh.called && dp.called, "C05: header and payload are both serialised into the token");
+		PROP(dh.alg.present && dh.alg.type == JSON_STRING && ref_str_alg(dh.alg.s) == (is_signed ? pv_s_alg : JWT_ALG_NONE),
+		     "C05: the alg header names the algorithm the token was signed with");
+		REACH(is_signed, "signed token serialised");
+#endif
 #ifdef PROP_C10
 		PROP(dh.called && dp.called, "C10: header and payload were both serialised");
 		PROP(outlen == n && same,
